@@ -636,9 +636,10 @@ WITNESSES = [
     ("c06_module_const_i32_refuted", "modconst", "i32", ["bin", "/", ["bin", "+", FC.i32(H32 - 1), FC.i32(1)], FC.i32(2)]),
     ("c06_module_bitnot_refuted", "modconst", "u32", ["bin", ">>", ["un", "~", FC.u32(0)], FC.u32(1)]),
     ("c06_module_mixed_type_refuted", "modconst", "u32", ["bin", "+", FC.u32(1), FC.ai(2)]),
+    ("c06_module_float_fallback_refuted", "modconst", "i32", ["bin", "/", FC.i32(7), ["bin", "/", FC.i32(1), FC.i32(2)]]),
+    ("c06_module_float_fallback_refuted", "modconstT", "i32", ["bin", "/", FC.i32(7), ["bin", "/", FC.i32(1), FC.i32(2)]]),
     ("c06_switch_selector_refuted", "switch", "u32", ["bin", "/", ["bin", "+", FC.u32(M32 - 1), FC.u32(1)], FC.u32(2)]),
     ("c06_array_size_refuted", "arraysize", "i32", ["bin", "<<", FC.u32(1), FC.u32(32)]),
-    ("c06_array_size_refuted", "arraysize", "i32", ["bin", "-", FC.ai(1), FC.ai(2)]),
     ("c06_array_size_refuted", "arraysize", "i32", ["m2", "min", FC.ai(2), FC.ai(3)]),
     ("c06_array_size_refuted", "arraysize", "i32", ["bin", "/", FC.ai(4), FC.ai(0)]),
     ("c06_const_assert_refuted", "assert", "bool", ["bin", "==", FC.u32(0), ["bin", "+", FC.u32(M32 - 1), FC.u32(1)]]),
@@ -659,7 +660,7 @@ def run(ctx):
                    "Fold/FoldErrors.v", "Fold/FoldRefuted.v", "Fold/ModEvalProofs.v", "Fold/FoldFloatProofs.v", "Fold/FoldGen.v", "Base/Bits32.v"]
     ok, failed, log = vcheck.proof_step(ctx, "Props/C06.v", model_files,
                                         gen_writer=lambda: gen.regenerate(tools, ["foldtables"]),
-                                        extra_obligation_files=["Fold/FoldGen.v", "Fold/FoldFloat.v", "Fold/FoldFloatProofs.v"])
+                                        extra_obligation_files=["Fold/FoldGen.v", "Fold/FoldFloat.v", "Fold/FoldFloatProofs.v", "Fold/FoldJson.v"])
     ctx.cov["trusted_base"] += [
         "translator: harness/cmd/goextract funcsrc (go/ast + go/printer) + lib/c06gen.py -> coq/Gen/FoldTables.v (switch tables and statement lists of 14 leaf functions of lower.go)",
         "axioms of Coq's Reals reached through Flocq, under the float theorems only (c06_fold_f32_arith_is_runtime, c06_f32_add_via_f64: ClassicalDedekindReals.sig_forall_dec, sig_not_dec, FunctionalExtensionality.functional_extensionality_dep, Classical_Prop.classic); every integer/bool/module-scope theorem of Props/C06.v is closed under the global context",
